@@ -37,6 +37,8 @@ type Env struct {
 	errs      []string
 	nquant    *int
 	noFc      bool // closed contract: do not resolve the caller's locals
+	cells     map[string]SV // captured variables of a closure contract: name -> pointer to the variable
+	cellVars  bool
 }
 
 type specError struct{ msg string }
@@ -115,6 +117,10 @@ func (env *Env) load(lv *LV) SV {
 func (env *Env) lookupIdent(name string) (SV, bool) {
 	if t, ok := env.bound[name]; ok {
 		return mathInt(t), true
+	}
+	if c, ok := env.cells[name]; ok && isPointer(c.Typ) {
+		// captured variable: its value in the current state
+		return env.load(env.vc.e.rootLV(c.one(), pointee(c.Typ))), true
 	}
 	if v, ok := env.vars[name]; ok {
 		return v, true
@@ -405,6 +411,20 @@ func (env *Env) evalLV(e Expr) *LV {
 				return env.vc.e.rootLV(p.one(), pointee(p.Typ))
 			}
 		}
+		if x.Op == "&" {
+			if id, ok := x.X.(*EIdent); ok {
+				if c, ok := env.cells[id.Name]; ok && isPointer(c.Typ) {
+					return env.vc.e.rootLV(c.one(), pointee(c.Typ))
+				}
+				if env.fc != nil {
+					for _, fv := range env.fc.fn.FreeVars {
+						if fv.Name() == id.Name && isPointer(fv.Type()) {
+							return env.fc.lvOf(fv)
+						}
+					}
+				}
+			}
+		}
 	case *EIndex:
 		b := env.eval(x.X)
 		if b.Typ != nil && isSlice(b.Typ) {
@@ -613,6 +633,14 @@ func (env *Env) evalCall(x *ECall) SV {
 	case "chanClosed":
 		argn(1)
 		return mathBool(env.fc.ghostGet(env.st, "chanClosed", SBool, env.eval(x.Args[0]).one()))
+	case "onceDone":
+		// onceDone(x.f): the sync.Once stored in field f of x has fired
+		argn(1)
+		lv := env.evalLV(x.Args[0])
+		if lv == nil {
+			env.fail("onceDone needs a field location: %s", exprString(x))
+		}
+		return mathBool(env.fc.ghostGet(env.st, "onceDone", SBool, env.fc.interiorPtr(lv)))
 	case "hasType":
 		// hasType(err, *T): err's tree contains a value of dynamic type *T
 		argn(2)
@@ -698,6 +726,12 @@ func (env *Env) evalCall(x *ECall) SV {
 		}
 		return mathInt(t)
 	}
+	if g, ok := e.spec.Ghosts[x.Fn]; ok && g.Name == "locked" {
+		argn(1)
+		if lv := env.evalLV(x.Args[0]); lv != nil && env.vc.e.typeName(lv.Typ) == "sync.Mutex" {
+			return mathBool(env.fc.ghostGet(env.st, g.Name, g.Sort, env.fc.interiorPtr(lv)))
+		}
+	}
 	if g, ok := e.spec.Ghosts[x.Fn]; ok {
 		argn(1)
 		k := env.eval(x.Args[0])
@@ -745,7 +779,7 @@ func (env *Env) noLocals() {
 
 // env builds the spec environment of the function for a program point.
 func (fc *FnCtx) env(st *State, at *ssa.BasicBlock) *Env {
-	env := &Env{fc: fc, vc: fc.vc, st: st, old: fc.entry, vars: map[string]SV{}, bound: map[string]Term{}, at: at, nquant: &fc.vc.n}
+	env := &Env{fc: fc, vc: fc.vc, st: st, old: fc.entry, vars: map[string]SV{}, bound: map[string]Term{}, at: at, nquant: &fc.vc.n, cells: fc.cells}
 	if at == nil {
 		// function-level clause: parameter names denote entry values
 		for k, v := range fc.entryEnv {
